@@ -64,7 +64,7 @@ def kernel_restrict(ctx, lib):
     def fn(c):
         kernel.R_restrict(c, lib)
         n = kernel.F_memo(c, lib, which=("restrict",))
-        c.floor("S.F-memo", "restrict_cache inserts", n, 3)
+        c.floor("S.F-memo", "restrict_cache inserts examined (vacuity guard)", n, 1)
     _run(ctx, "kernel_restrict", ctx.cfg, fn)
 
 
